@@ -59,7 +59,7 @@ impl Sums {
 }
 
 #[derive(Clone, Copy, Debug, PartialEq)]
-enum Kind {
+pub(crate) enum Kind {
     BidiEcho,
     UniC2S,
     UniS2C,
@@ -67,12 +67,38 @@ enum Kind {
 
 #[derive(Clone, Debug)]
 pub(crate) struct Plan {
-    kind: Kind,
-    sid: u64,
-    key: u64,
-    len: usize,
+    pub(crate) kind: Kind,
+    pub(crate) sid: u64,
+    pub(crate) key: u64,
+    pub(crate) len: usize,
     chunks: Vec<usize>,
     read_buf: usize,
+    /// the reader sleeps this long (virtual) after every read: a slow consumer, so that the sender runs into the
+    /// flow-control limits and *_BLOCKED frames are sent (0 = reads as fast as data arrives; `c02_small` only)
+    pub(crate) read_pause_ms: u64,
+}
+
+/// One planned stream of a given kind / id / length (run `c02_small`; `plan_streams` keeps its own draw sequence).
+pub(crate) fn plan_one(rng: &mut Rng, kind: Kind, sid: u64, len: usize, read_bufs: &[usize], read_pause_ms: u64) -> Plan {
+    let mut chunks = vec![];
+    let mut left = len;
+    let style = rng.below(3);
+    while left > 0 {
+        let c = match style {
+            0 => rng.range(1, 700),
+            1 => rng.range(1, 5000),
+            _ => rng.range(1, 70_000),
+        } as usize;
+        let c = c.min(left);
+        chunks.push(c);
+        left -= c;
+        if chunks.len() > 300 {
+            chunks.push(left);
+            left = 0;
+        }
+    }
+    chunks.retain(|c| *c > 0);
+    Plan { kind, sid, key: rng.below(1000), len, chunks, read_buf: *rng.pick(read_bufs), read_pause_ms }
 }
 
 pub(crate) fn plan_streams(rng: &mut Rng, thorough: bool) -> Vec<Plan> {
@@ -112,7 +138,7 @@ pub(crate) fn plan_streams(rng: &mut Rng, thorough: bool) -> Vec<Plan> {
             }
         }
         chunks.retain(|c| *c > 0);
-        v.push(Plan { kind, sid, key: rng.below(1000), len, chunks, read_buf: *rng.pick(&[1usize, 100, 1500, 8192, 65536]) });
+        v.push(Plan { kind, sid, key: rng.below(1000), len, chunks, read_buf: *rng.pick(&[1usize, 100, 1500, 8192, 65536]), read_pause_ms: 0 });
     }
     v
 }
@@ -202,6 +228,9 @@ async fn read_all(h: &History, sh: &Shared, ep: &'static str, sid: u64, mut r: S
                     return false;
                 }
                 nread += n as u64;
+                if plan.read_pause_ms > 0 {
+                    tokio::time::sleep(Duration::from_millis(plan.read_pause_ms)).await;
+                }
                 if let Some(w) = echo.as_mut() {
                     let mut done = 0;
                     while done < n {
@@ -402,6 +431,134 @@ async fn server_conn(h: History, sh: Shared, conn: Connection, plans: Arc<Vec<Pl
     ok
 }
 
+/// Application of endpoint `ep` for workloads with MORE streams than the peer's stream limit (`c02_small`): opening
+/// (which waits for MAX_STREAMS), accepting and the transfers all run concurrently, so that the harness itself can
+/// never deadlock on "open the next stream" vs "accept / finish the previous ones".
+async fn ep_app(ep: &'static str, h: History, sh: Shared, conn: Connection, plans: Arc<Vec<Plan>>) -> bool {
+    let mine = move |p: &Plan| if ep == "c" { p.kind != Kind::UniS2C } else { p.kind == Kind::UniS2C };
+    let mut tasks = tokio::task::JoinSet::new();
+    {
+        let (h, sh, conn, plans) = (h.clone(), sh.clone(), conn.clone(), plans.clone());
+        tasks.spawn(async move {
+            let mut inner = tokio::task::JoinSet::new();
+            for p in plans.iter().filter(|p| mine(p)).cloned() {
+                if p.kind == Kind::BidiEcho {
+                    match conn.open_bi_stream().await {
+                        Ok(Some((sid, (r, w)))) => {
+                            let sid = sid_num(sid);
+                            h.push(ep, format!("open {ep} {sid} {}", p.key), "ok".into());
+                            if sid != p.sid {
+                                fail(&sh, "harness:sid-plan", format!("bidi sid {sid} != planned {}", p.sid));
+                            }
+                            let (h1, h2, sh2, p1, p2) = (h.clone(), h.clone(), sh.clone(), p.clone(), p.clone());
+                            inner.spawn(async move { write_all(&h1, ep, sid, w, &p1).await });
+                            inner.spawn(async move { read_all(&h2, &sh2, ep, sid, r, &p2, None).await });
+                        }
+                        Ok(None) => {
+                            h.push(ep, format!("serr {ep} {} open", p.sid), "limit".into());
+                            return false;
+                        }
+                        Err(e) => {
+                            h.push(ep, format!("serr {ep} {} open", p.sid), sim::err_kind(&e));
+                            return false;
+                        }
+                    }
+                } else {
+                    match conn.open_uni_stream().await {
+                        Ok(Some((sid, w))) => {
+                            let sid = sid_num(sid);
+                            h.push(ep, format!("open {ep} {sid} {}", p.key), "ok".into());
+                            if sid != p.sid {
+                                fail(&sh, "harness:sid-plan", format!("uni sid {sid} != planned {}", p.sid));
+                            }
+                            let (h1, p1) = (h.clone(), p.clone());
+                            inner.spawn(async move { write_all(&h1, ep, sid, w, &p1).await });
+                        }
+                        Ok(None) => {
+                            h.push(ep, format!("serr {ep} {} open", p.sid), "limit".into());
+                            return false;
+                        }
+                        Err(e) => {
+                            h.push(ep, format!("serr {ep} {} open", p.sid), sim::err_kind(&e));
+                            return false;
+                        }
+                    }
+                }
+            }
+            let mut ok = true;
+            while let Some(r) = inner.join_next().await {
+                ok &= r.unwrap_or(false);
+            }
+            ok
+        });
+    }
+    let n_bi = if ep == "s" { plans.iter().filter(|p| p.kind == Kind::BidiEcho).count() } else { 0 };
+    let n_uni = plans.iter().filter(|p| if ep == "s" { p.kind == Kind::UniC2S } else { p.kind == Kind::UniS2C }).count();
+    if n_bi > 0 {
+        let (h, sh, conn, plans) = (h.clone(), sh.clone(), conn.clone(), plans.clone());
+        tasks.spawn(async move {
+            let mut inner = tokio::task::JoinSet::new();
+            for _ in 0..n_bi {
+                match conn.accept_bi_stream().await {
+                    Ok((sid, (r, w))) => {
+                        let sid = sid_num(sid);
+                        h.push(ep, format!("accept {ep} {sid}"), "ok".into());
+                        let Some(p) = find(&plans, sid).cloned() else {
+                            fail(&sh, "integrity:unopened-stream-accepted", format!("{ep} accepted bidi stream {sid} that the peer never opened"));
+                            return false;
+                        };
+                        let (h2, sh2) = (h.clone(), sh.clone());
+                        inner.spawn(async move { read_all(&h2, &sh2, ep, sid, r, &p, Some(w)).await });
+                    }
+                    Err(e) => {
+                        h.push(ep, format!("serr {ep} - accept"), sim::err_kind(&e));
+                        return false;
+                    }
+                }
+            }
+            let mut ok = true;
+            while let Some(r) = inner.join_next().await {
+                ok &= r.unwrap_or(false);
+            }
+            ok
+        });
+    }
+    if n_uni > 0 {
+        let (h, sh, conn, plans) = (h.clone(), sh.clone(), conn.clone(), plans.clone());
+        tasks.spawn(async move {
+            let mut inner = tokio::task::JoinSet::new();
+            for _ in 0..n_uni {
+                match conn.accept_uni_stream().await {
+                    Ok((sid, r)) => {
+                        let sid = sid_num(sid);
+                        h.push(ep, format!("accept {ep} {sid}"), "ok".into());
+                        let Some(p) = find(&plans, sid).cloned() else {
+                            fail(&sh, "integrity:unopened-stream-accepted", format!("{ep} accepted uni stream {sid} that the peer never opened"));
+                            return false;
+                        };
+                        let (h2, sh2) = (h.clone(), sh.clone());
+                        inner.spawn(async move { read_all(&h2, &sh2, ep, sid, r, &p, None).await });
+                    }
+                    Err(e) => {
+                        h.push(ep, format!("serr {ep} - accept"), sim::err_kind(&e));
+                        return false;
+                    }
+                }
+            }
+            let mut ok = true;
+            while let Some(r) = inner.join_next().await {
+                ok &= r.unwrap_or(false);
+            }
+            ok
+        });
+    }
+    let mut ok = true;
+    while let Some(r) = tasks.join_next().await {
+        ok &= r.unwrap_or(false);
+    }
+    ok
+}
+
 // ---------------------------------------------------------------------------------------------
 // one case
 // ---------------------------------------------------------------------------------------------
@@ -411,17 +568,17 @@ pub(crate) struct CaseResult {
     pub(crate) fails: Vec<(String, String)>,
     /// both applications finished all planned transfers without any error
     pub(crate) complete: bool,
-    client_done: Option<bool>,
-    server_done: Option<bool>,
-    server_saw_conn: bool,
+    pub(crate) client_done: Option<bool>,
+    pub(crate) server_done: Option<bool>,
+    pub(crate) server_saw_conn: bool,
     pub(crate) term_c: Option<String>,
     pub(crate) term_s: Option<String>,
     /// full text of the terminal errors (for the report only, never compared)
     pub(crate) term_detail: Vec<String>,
     pub(crate) counts: std::collections::BTreeMap<&'static str, u64>,
-    virt_ms: u64,
-    expected_dirs: u64,
-    complete_dirs: u64,
+    pub(crate) virt_ms: u64,
+    pub(crate) expected_dirs: u64,
+    pub(crate) complete_dirs: u64,
 }
 
 /// Canonical application-level summary of a run (no timing, no chunk boundaries): per endpoint and stream the
@@ -449,7 +606,7 @@ pub(crate) fn summary(r: &CaseResult) -> std::collections::BTreeMap<String, Stri
     out
 }
 
-fn expected_dirs(plans: &[Plan]) -> u64 {
+pub(crate) fn expected_dirs(plans: &[Plan]) -> u64 {
     plans.iter().map(|p| if p.kind == Kind::BidiEcho { 2 } else { 1 }).sum()
 }
 
@@ -459,11 +616,18 @@ async fn one_case(profile: Profile, adv_rng: Rng, plans: Vec<Plan>, idle: Durati
 
 /// the same case with an explicit `PairCfg` (C20: a qlog collector installed on both endpoints)
 pub(crate) async fn one_case_cfg(profile: Profile, adv_rng: Rng, plans: Vec<Plan>, idle: Duration, budget: Duration, cfg: PairCfg) -> CaseResult {
+    one_case_adv(Box::new(FaultAdversary::new(adv_rng, profile)), plans, idle, budget, cfg.idle_timeout(idle), false).await
+}
+
+/// the same with ANY adversary and the `PairCfg` taken as it is (`idle` is only used for the close slack);
+/// `concurrent` = the applications open / accept / transfer concurrently (`ep_app`; needed when the workload has more
+/// streams than the peer's stream limit)
+pub(crate) async fn one_case_adv(adversary: Box<dyn sim::Adversary>, plans: Vec<Plan>, idle: Duration, budget: Duration, cfg: PairCfg, concurrent: bool) -> CaseResult {
     let h = History::new();
     let sh: Shared = Arc::new(std::sync::Mutex::new(Check::default()));
     let plans = Arc::new(plans);
     let t0 = tokio::time::Instant::now();
-    let pair = Pair::build(Box::new(FaultAdversary::new(adv_rng, profile.clone())), cfg.idle_timeout(idle)).await;
+    let pair = Pair::build(adversary, cfg).await;
     if std::env::var("GMQ_C02_DEBUG").is_ok() {
         pair.net.record(true);
     }
@@ -486,7 +650,7 @@ pub(crate) async fn one_case_cfg(profile: Profile, adv_rng: Rng, plans: Vec<Plan
                     let _ = term_s_tx.send(format!("{k}|server: {e}"));
                 });
             }
-            let ok = server_conn(h, sh, conn, plans).await;
+            let ok = if concurrent { ep_app("s", h, sh, conn, plans).await } else { server_conn(h, sh, conn, plans).await };
             let _ = sdone_tx.send(ok);
             // keep accepting (a second connection would be a finding of its own: nobody opens one)
             std::future::pending::<()>().await;
@@ -527,7 +691,11 @@ pub(crate) async fn one_case_cfg(profile: Profile, adv_rng: Rng, plans: Vec<Plan
         });
     }
     let deadline = t0 + budget;
-    let capp = tokio::spawn(client_app(h.clone(), sh.clone(), conn.clone(), plans.clone()));
+    let capp = if concurrent {
+        tokio::spawn(ep_app("c", h.clone(), sh.clone(), conn.clone(), plans.clone()))
+    } else {
+        tokio::spawn(client_app(h.clone(), sh.clone(), conn.clone(), plans.clone()))
+    };
     // phase 1: both applications finish (ok or not) or the budget ends
     let both = async {
         let c = capp.await.unwrap_or(false);
@@ -631,7 +799,7 @@ fn inject_profiles() -> Vec<Profile> {
 
 /// Terminal connection errors two honest endpoints may see whatever the network does:
 /// an application close, or the loss of the (only) path by idle timeout / persistent loss.
-fn allowed_term(kind: &str) -> bool {
+pub(crate) fn allowed_term(kind: &str) -> bool {
     matches!(kind, "app" | "quic:Application" | "quic:NoViablePath" | "quic:None")
 }
 
